@@ -2690,6 +2690,7 @@ class op(object):
                 else:
                     varname = str(k)
                 varname = varname[:(7-len(str(i)))] + '_' + str(i)
+                colpos = f.tell()
 
                 if v in self.objective._linear._coeff:
                     cf = self.objective._linear._coeff[v]
@@ -2732,7 +2733,14 @@ class op(object):
                                  f.write(4*' ' + varname[:8].rjust(8))
                                  f.write(2*' ' + conname[:8].rjust(8))
                                  f.write(2*' ' + '% 7.5E\n' %cf[0,0])
-                        
+                if f.tell() == colpos:
+                    # all coefficients of this component are zero: write
+                    # an explicit zero entry so that the column (which is
+                    # listed in the BOUNDS section) is defined
+                    f.write(4*' ' + varname[:8].rjust(8))
+                    f.write(2*' ' + '%8s' %'cost')
+                    f.write(2*' ' + '% 7.5E\n' %0.0)
+
         f.write('RHS\n') 
         for j in range(len(constraints)):
             c = constraints[j]
